@@ -5,8 +5,10 @@ package main
 // listeners, Alt-Svc bookkeeping), evaluates the property's oracle, and renders the cell as a Coq term.
 
 import (
+	"context"
 	"crypto/tls"
 	"fmt"
+	"net"
 	"net/url"
 	"strings"
 	"time"
@@ -171,6 +173,86 @@ func specAfter(cur *tlsSpec, x op) *tlsSpec {
 	return &t
 }
 
+// expectations tracked by the harness from the operation sequence (never read back from the client)
+type want struct {
+	force string   // forced version: "", "1.1", "2", "3"
+	tls   *tlsSpec // the client's TLS settings
+	dial  *tlsSpec // configuration of the caller-supplied SetDialTLS function (nil = none)
+	hs    *tlsSpec // configuration of the caller-supplied SetTLSHandshake function (nil = none)
+}
+
+var forceName = []string{"", "1.1", "2", "3"}
+
+func (w want) after(x op) want {
+	switch x.K {
+	case "force":
+		w.force = forceName[x.N]
+	case "h2c": // EnableH2C installs its own DialTLSContext, DisableH2C clears the slot
+		w.dial = nil
+	case "dialtls":
+		w.dial = nil
+		if x.TLS != nil && !x.TLS.Nil {
+			w.dial = x.TLS
+		}
+	case "handshake":
+		w.hs = nil
+		if x.TLS != nil && !x.TLS.Nil {
+			w.hs = x.TLS
+		}
+	default:
+		w.tls = specAfter(w.tls, x)
+	}
+	return w
+}
+
+// the configuration that governs TCP connections: the caller's own function when there is one (documented:
+// SetDialTLS / SetTLSHandshake are valid for HTTP/1 and HTTP/2 only), the client's settings otherwise
+func (w want) tcp() *tlsSpec {
+	if w.dial != nil {
+		return w.dial
+	}
+	if w.hs != nil {
+		return w.hs
+	}
+	return w.tls
+}
+
+// caller-supplied TLS functions: plain crypto/tls with the given configuration, server name defaulted to the
+// dialled host
+func (p *pki) userConfig(t *tlsSpec, host string) *tls.Config {
+	cfg := p.tlsConfig(t)
+	if cfg.ServerName == "" {
+		cfg.ServerName = host
+	}
+	return cfg
+}
+
+func (p *pki) userDialTLS(t *tlsSpec) func(ctx context.Context, network, addr string) (net.Conn, error) {
+	return func(ctx context.Context, network, addr string) (net.Conn, error) {
+		host, _, err := net.SplitHostPort(addr)
+		if err != nil {
+			host = addr
+		}
+		d := &tls.Dialer{Config: p.userConfig(t, host)}
+		return d.DialContext(ctx, network, addr)
+	}
+}
+
+func (p *pki) userHandshake(t *tlsSpec) func(ctx context.Context, addr string, plain net.Conn) (net.Conn, *tls.ConnectionState, error) {
+	return func(ctx context.Context, addr string, plain net.Conn) (net.Conn, *tls.ConnectionState, error) {
+		host, _, err := net.SplitHostPort(addr)
+		if err != nil {
+			host = addr
+		}
+		conn := tls.Client(plain, p.userConfig(t, host))
+		if err := conn.HandshakeContext(ctx); err != nil {
+			return nil, nil, err
+		}
+		st := conn.ConnectionState()
+		return conn, &st, nil
+	}
+}
+
 func waitFor(d time.Duration, f func() bool) bool {
 	deadline := time.Now().Add(d)
 	for {
@@ -235,6 +317,18 @@ func runCell(p *pki, o *origin, cl cell, timeout time.Duration) (res cellResult)
 			}
 		case "closeidle":
 			c.GetTransport().CloseIdleConnections()
+		case "dialtls":
+			if x.TLS == nil || x.TLS.Nil {
+				c.SetDialTLS(nil)
+			} else {
+				c.SetDialTLS(p.userDialTLS(x.TLS))
+			}
+		case "handshake":
+			if x.TLS == nil || x.TLS.Nil {
+				c.SetTLSHandshake(nil)
+			} else {
+				c.SetTLSHandshake(p.userHandshake(x.TLS))
+			}
 		default:
 			return false
 		}
@@ -243,14 +337,20 @@ func runCell(p *pki, o *origin, cl cell, timeout time.Duration) (res cellResult)
 	// one GET with client c (+ waiting for the Alt-Svc goroutine it may have started) and the oracle
 	// force = the version the operations applied so far have forced on this client (tracked here from the
 	// operation sequence, a clone inheriting its original's: NOT read back from the client)
-	doReq := func(c *req.Client, hadV3 *bool, force string, want *tlsSpec, tag string) (rec, bg obsRec) {
+	doReq := func(c *req.Client, hadV3 *bool, w want, tag string) (rec, bg obsRec) {
+		force := w.force
 		viol := func(sig, what string) { violT(tag, sig, what) }
 		if got := c.GetTransport().VerifForceHTTPVersion(); got != force {
 			viol("force-lost-want-"+force+"-has-"+got, fmt.Sprintf("the operations forced version %q on this client (or its original) but the transport holds %q", force, got))
 		}
-		refOK, wantSNI := true, ""
+		refOK, wantSNI := true, ""     // under the client's settings (QUIC; TCP unless the caller supplied his own TLS)
+		refTCP, sniTCP := true, ""     // under the configuration that governs TCP connections
 		if o.spec.HTTPS {
-			refOK, wantSNI = refAcceptable(p, want, o)
+			refOK, wantSNI = refAcceptable(p, w.tls, o)
+			refTCP, sniTCP = refOK, wantSNI
+			if w.tcp() != w.tls {
+				refTCP, sniTCP = refAcceptable(p, w.tcp(), o)
+			}
 		}
 		altBefore := c.GetTransport().VerifAltSvcState(u)
 		m := o.mark()
@@ -341,6 +441,11 @@ func runCell(p *pki, o *origin, cl cell, timeout time.Duration) (res cellResult)
 			stack := "tcp"
 			if rec.Hellos[len(rec.Hellos)-1].Quic {
 				stack = "quic"
+			} else {
+				refOK, wantSNI = refTCP, sniTCP
+				if w.tcp() != w.tls {
+					stack = "tcp-user-tls"
+				}
 			}
 			if !refOK && ok {
 				viol("accepted-unacceptable/"+stack, "server certificate / client authentication unacceptable under the client's TLS settings (crypto/tls with the same settings refuses) but the request succeeded over "+stack)
@@ -357,9 +462,7 @@ func runCell(p *pki, o *origin, cl cell, timeout time.Duration) (res cellResult)
 		}
 		return rec, bg
 	}
-	forceName := []string{"", "1.1", "2", "3"}
-	wantForce := ""
-	var wantTLS *tlsSpec // req.C(): no roots, no name, no certificates, verification on
+	var w want // req.C(): nothing forced, no roots, no name, no certificates, verification on
 	for _, x := range cl.Ops {
 		switch x.K {
 		case "clone":
@@ -370,7 +473,7 @@ func runCell(p *pki, o *origin, cl cell, timeout time.Duration) (res cellResult)
 				panic("clone: not a configuration op: " + x.F.K)
 			}
 		case "req":
-			rec, bg := doReq(c, &hadV3, wantForce, wantTLS, "")
+			rec, bg := doReq(c, &hadV3, w, "")
 			res.Obs = append(res.Obs, rec, bg)
 			continue
 		case "fork":
@@ -379,15 +482,11 @@ func runCell(p *pki, o *origin, cl cell, timeout time.Duration) (res cellResult)
 				panic("fork: not a configuration op: " + x.F.K)
 			}
 			h := false
-			f2 := wantForce
-			if x.F != nil && x.F.K == "force" {
-				f2 = forceName[x.F.N]
-			}
-			t2 := wantTLS
+			w2 := w
 			if x.F != nil {
-				t2 = specAfter(wantTLS, *x.F)
+				w2 = w.after(*x.F)
 			}
-			rec, bg := doReq(c2, &h, f2, t2, "@fork")
+			rec, bg := doReq(c2, &h, w2, "@fork")
 			res.Obs = append(res.Obs, obsRec{Kind: "fork", Outcome: rec.Outcome, Hellos: rec.Hellos, BgHellos: bg.Hellos, Alt: bg.Alt, Detail: rec.Detail})
 			c2.GetTransport().CloseIdleConnections()
 			continue
@@ -395,10 +494,7 @@ func runCell(p *pki, o *origin, cl cell, timeout time.Duration) (res cellResult)
 			if !applyCfg(c, x) {
 				panic("unknown op " + x.K)
 			}
-			if x.K == "force" {
-				wantForce = forceName[x.N]
-			}
-			wantTLS = specAfter(wantTLS, x)
+			w = w.after(x)
 		}
 		res.Obs = append(res.Obs, obsRec{Kind: "cfg"})
 	}
@@ -452,6 +548,10 @@ func coqOps(ops []op) string {
 			out = append(out, "OEnableH3")
 		case "h2c":
 			out = append(out, "OH2C "+hk.CoqBool(x.B))
+		case "dialtls":
+			out = append(out, "ODialTLS "+coqTLS(x.TLS))
+		case "handshake":
+			out = append(out, "OHandshake "+coqTLS(x.TLS))
 		case "clone":
 			out = append(out, "OClone")
 		case "closeidle":
@@ -482,6 +582,10 @@ func coqFork(f *op) string {
 		return "(FkForce " + []string{"FNone", "FH1", "FH2", "FH3"}[f.N] + ")"
 	case "h2c":
 		return "(FkH2C " + hk.CoqBool(f.B) + ")"
+	case "dialtls":
+		return "(FkDialTLS " + coqTLS(f.TLS) + ")"
+	case "handshake":
+		return "(FkHandshake " + coqTLS(f.TLS) + ")"
 	}
 	panic("fork action not expressible in the model: " + f.K)
 }
